@@ -554,6 +554,7 @@ static int pad_pkcs2(bn_t m, size_t *p_len, size_t m_len, size_t k_len,
 					for (int i = m_len - 1; i < 8 * k_len; i++) {
 						bn_set_bit(m, i - ((RLC_MD_LEN + 1) * 8), 0);
 					}
+					bn_trim(m);
 					if (r == 1 && bn_is_zero(m)) {
 						result = RLC_OK;
 					}
